@@ -28,10 +28,16 @@ const (
 	hTypedSliceElem   // element of a Go slice of the value's own type: addressable
 	hTypedStructField // field of the value's own type, reached through a struct pointer: addressable
 	hPointerDeref     // *p for a pointer to the value's own type: addressable
+	hGoCallNamedIface // returned by a Go function declared to return a defined interface type (as `error` is one)
+	hNamedIfaceElem   // element of a Go slice whose element type is a defined interface type
 	hNumHops
 )
 
-var hNames = []string{"variable", "slice-element", "map-entry", "script-call", "go-call-interface", "paren", "ternary", "nil-coalesce", "struct-field", "typed-slice-element", "typed-struct-field", "pointer-deref"}
+// zzAnyBox: a defined interface type every value implements; what holds for it
+// holds for error, fmt.Stringer ... for the values that implement those.
+type zzAnyBox interface{}
+
+var hNames = []string{"variable", "slice-element", "map-entry", "script-call", "go-call-interface", "paren", "ternary", "nil-coalesce", "struct-field", "typed-slice-element", "typed-struct-field", "pointer-deref", "go-call-defined-interface", "defined-interface-slice-element"}
 
 type zzHolder struct {
 	F interface{}
@@ -70,6 +76,12 @@ func zzThrough(e *env.Env, hop int, v reflect.Value, inner ast.Expr, depth int) 
 		h := &zzHolder{F: iv}
 		e.Define(name+"h", h)
 		return &ast.MemberExpr{Expr: zzIdent(name + "h"), Name: "F"}
+	case hGoCallNamedIface:
+		e.Define("zzbox", func(x interface{}) zzAnyBox { return x })
+		return &ast.CallExpr{Name: "zzbox", SubExprs: []ast.Expr{inner}}
+	case hNamedIfaceElem:
+		e.Define(name+"bs", []zzAnyBox{iv})
+		return &ast.ItemExpr{Item: zzIdent(name + "bs"), Index: zzLit(int64(0))}
 	case hTypedSliceElem, hTypedStructField, hPointerDeref:
 		// containers of the value's own static type hand out addressable values
 		// (the hop evaluates inner for its effects on the tape only: the container holds v)
@@ -108,7 +120,11 @@ var zzTemplates = []string{
 	"make-len", "chan-send-value", "chan-recv", "close", "delete-item", "delete-key", "throw",
 	"assign-source", "multi-assign-source", "var-multi-source", "item-assign-target", "defer-callee", "array-elem", "map-value", "map-key", "return",
 	"delete-global-flag", "switch-subject-nil-case", "switch-nil-subject-case", "eq-nil-l", "eq-nil-r", "make-type", "chan-send-channel", "go-callee", "delete-name",
+	"go-call-own-type-arg", "typed-list-literal-elem", "typed-map-literal-value",
 }
+
+// zzCurVal: the value of the class under test (templates that need its type)
+var zzCurVal reflect.Value
 
 func zzTemplate(e *env.Env, t string, x ast.Expr) ast.Stmt {
 	one := zzLit(int64(1))
@@ -174,6 +190,28 @@ func zzTemplate(e *env.Env, t string, x ast.Expr) ast.Stmt {
 	case "call-arg":
 		e.DefineValue("zzf1", zzScriptFunc(1, false))
 		return ex(&ast.CallExpr{Name: "zzf1", SubExprs: []ast.Expr{x}})
+	case "go-call-own-type-arg":
+		// a Go function whose parameter has the value's own concrete type
+		if !zzCurVal.IsValid() || !zzCurVal.CanInterface() || zzCurVal.Kind() == reflect.Interface {
+			return ex(x)
+		}
+		ft := reflect.FuncOf([]reflect.Type{zzCurVal.Type()}, []reflect.Type{interfaceType}, false)
+		e.DefineValue("zzwants", reflect.MakeFunc(ft, func(in []reflect.Value) []reflect.Value {
+			out := reflect.New(interfaceType).Elem()
+			out.Set(in[0])
+			return []reflect.Value{out}
+		}))
+		return ex(&ast.CallExpr{Name: "zzwants", SubExprs: []ast.Expr{x}})
+	case "typed-list-literal-elem", "typed-map-literal-value":
+		if !zzCurVal.IsValid() || !zzCurVal.CanInterface() || zzCurVal.Kind() == reflect.Interface {
+			return ex(x)
+		}
+		e.DefineReflectType("zzT", zzCurVal.Type())
+		if t == "typed-list-literal-elem" {
+			// (the element is read back: functions, channels and pointers are compared by type)
+			return ex(&ast.ItemExpr{Item: &ast.ArrayExpr{TypeData: &ast.TypeStruct{Kind: ast.TypeSlice, SubType: &ast.TypeStruct{Name: "zzT"}, Dimensions: 1}, Exprs: []ast.Expr{x}}, Index: zzLit(int64(0))})
+		}
+		return ex(&ast.ItemExpr{Item: &ast.MapExpr{TypeData: &ast.TypeStruct{Kind: ast.TypeMap, Key: &ast.TypeStruct{Name: "string"}, SubType: &ast.TypeStruct{Name: "zzT"}}, Keys: []ast.Expr{zzLit("k")}, Values: []ast.Expr{x}}, Index: zzLit("k")})
 	case "call-spread":
 		e.DefineValue("zzf2", zzScriptFunc(2, false))
 		return ex(&ast.CallExpr{Name: "zzf2", SubExprs: []ast.Expr{x}, VarArg: true})
@@ -342,10 +380,17 @@ func zzC20(chainLen int) {
 		return
 	}
 
+	if t == "make-type" && c == uNil && (hops[0] == hGoCallNamedIface || hops[0] == hNamedIfaceElem) {
+		// the only thing a nil knows is the static type of the slot it sits in:
+		// make(type T, nilErr()) names that interface type, make(type T, nil) interface{}
+		return
+	}
+
 	// run 1: literal operand
 	zzTapeStart()
 	e1 := env.NewEnv()
 	v1 := zzValueOf(c)
+	zzCurVal = v1
 	var x1 ast.Expr = zzLitRV(v1)
 	if t == "item-assign-target" {
 		x1 = zzThrough(e1, hVar, v1, x1, 2)
